@@ -789,6 +789,12 @@ func vScenarioC12(rc *runCtx) {
 	// every read at every hop takes a fresh 32 KiB buffer: churn proportional to the number of messages is not
 	// "memory on the strength of a length field"
 	budget := int64(64<<20) + 16*(moved+10<<20) + 3*int64(kPrefixHashStep) + writes*(128<<10)
+	// every file of a transfer has its own compressors (zstd for the data, a deflate writer for each control line,
+	// about a megabyte apiece) and, in directory mode, its own archive writer: churn proportional to the number
+	// of files is not memory on the strength of a length field either
+	if nf, ok := rc.res.Scenario["files"].(int); ok {
+		budget += int64(nf) * (16 << 20)
+	}
 	if hugeAnnounced {
 		// the protocol lets a server announce chunks of up to 1 GiB (2 GiB escaped): a receiver that reserves
 		// that much for one announced chunk stays within what was negotiated; beyond it, it does not
